@@ -94,6 +94,22 @@ def _grid_case(seed, i):
             "refine_methods": ["integrate+newton", "integrate"]})
         case["options"].pop("curvature_type", None)
         case["options"].pop("refine_timeout", None)
+    if i % 13 == 5:
+        # stratum: walled non-orthogonal single null with worker processes and no
+        # faults - the contours extended to the wall have unequal numbers of points, the
+        # one parallel map whose tasks differ in size
+        rng3 = core.stream(s, "ragged")
+        case = FS.make_case(rng3, s, kind="worker", entry=("api-tok", "geqdsk")[(i // 13) % 2],
+                            geom=("lsn", "usn")[(i // 26) % 2])
+        case["fault"].update({"buggify": None, "clock": None, "sub": "fallback"})
+        case["np"] = 2 + (i // 13) % 3
+        o = case["options"]
+        o.pop("refine_timeout", None)
+        o["orthogonal"] = False
+        # the example's orthogonal spacings are refused for non-orthogonal single nulls
+        o.pop("target_all_poloidal_spacing_length", None)
+        o.pop("xpoint_poloidal_spacing_length", None)
+        o["y_boundary_guards"] = (i // 13) % 2
     case["check_psi"] = True
     return case
 
@@ -146,7 +162,7 @@ def main(tier, seed):
                 points += psi["points"]
                 fired["pinned_corners_excluded"] += psi["pinned_corners"]
                 sigs.add((c["entry"], c.get("geometry"), c["np"], c["kind"],
-                          tuple(c["options"]["refine_methods"]),
+                          tuple(c["options"].get("refine_methods", ())),
                           c["options"].get("orthogonal", True), psi["tau_factor"]))
                 if len(samples) < 2:
                     samples.append({"case": {k: v for k, v in c.items() if k != "choices"},
